@@ -52,10 +52,21 @@ def main(tier):
                          "2100-03-01", "2400-02-29", "2011-11-20", "2012-03-10", "2012-06-15"]
                 ls = set(ch.ldn_of(*map(int, x.split("-"))) for x in fixed)
             ls = sorted(ls)
-            for with_time, formats in ((False, DATE_FORMATS), (True, DT_FORMATS)):
+            # fixed-length units must not depend on the notation the operands are written in: the same points as ISO week dates,
+            # ordinal dates and n-th-weekday dates (these reach the day count through other conversion routines than ymd does)
+            variants = [(False, DATE_FORMATS, None), (True, DT_FORMATS, None)]
+            for nota in ("ywd", "yd", "ymcw"):
+                variants.append((False, [["d"], ["w", "d"], ["b"]] if (si + len(nota)) % 2 or not quick else [["d"]], nota))
+            for with_time, formats, nota in variants:
                 pts = [dc.point(ch, l, rng.choice([0, 1, 43199, 43200, 86399]) if with_time else 0) for l in ls]
+                if nota and si == 0:
+                    # the fixed set is about borrows; for notations what matters are pairs far apart and across century years
+                    pts = [dc.point(ch, l, 0) for l in sorted(set(ch.ldn_of(y, mo, d) for y in (1700, 1899, 1900, 2000, 2100, 2399, 2400, 2401, 2800, 2801, 3200, 3201, 4000)
+                                                                 for mo, d in ((1, 1), (3, 1), (12, 31))))]
+                tf = (lambda p, nota=nota: cc.fmt_row(nota, ch.row(p["ldn"]))) if nota else None
+                xa = ["-i", cc.INFMT[nota]] if nota else []
                 for units in formats:
-                    res, bad = dc.run_matrix(ddiff, pts, with_time, units)
+                    res, bad = dc.run_matrix(ddiff, pts, with_time, units, textfn=tf, extra_args=xa)
                     nrun += len(pts)
                     for i, n, rc in bad:
                         rep.disagree("ddiff %s: wrong number of output lines" % "".join(units), {"A": dc.text(pts[i], with_time), "lines": n, "rc": rc})
@@ -73,8 +84,9 @@ def main(tier):
                                 continue        # keeps the seconds inside 32 bits for TLC; far pairs are covered with d/w/Y formats
                             p1, p2 = dc.parse(res[(i, j)], units), dc.parse(res[(j, i)], units)
                             dead = {u: -1 for u in dc.UNITS}
-                            execs.append([{"e": "Diff", "cmd": "ddiff %s %s -f '%s'" % (dc.text(a, with_time), dc.text(bb, with_time), dc.fmt_of(units)),
-                                           "fmt": "".join(units), "cal": "ywd" if ("Y" in units and "w" in units and "m" not in units) else "greg", "a": a, "b": bb,
+                            execs.append([{"e": "Diff", "cmd": "ddiff %s%s %s -f '%s'" % ("-i '%s' " % cc.INFMT[nota] if nota else "", (tf or (lambda p: dc.text(p, with_time)))(a),
+                                                                                  (tf or (lambda p: dc.text(p, with_time)))(bb), dc.fmt_of(units)),
+                                           "fmt": "".join(units) + ("/" + nota if nota else ""), "cal": "ywd" if ("Y" in units and "w" in units and "m" not in units) else "greg", "a": a, "b": bb,
                                            "comps": p1[0] if p1 else dead, "neg": bool(p1 and p1[2]), "out": res[(i, j)],
                                            "rcomps": p2[0] if p2 else dead, "rneg": bool(p2 and p2[2]), "rout": res[(j, i)]}])
         rep.notes["tool_runs"] = nrun
